@@ -138,7 +138,7 @@ Section SetsMain.
   Ltac rdc := cbn [bind fst snd validate2 validate4 validate_shape sub add mul div ofZ eqb RO zeroT twoT strip].
   Ltac go Hu := repeat (progress (try rewrite !convert_none; try dist Hu; rdc)).
   Ltac fld := first [ field; lra | field; split; lra | lra ].
-  Ltac nz g := repeat (rewrite Reqb_false by (cbn; lra)); cbn [orb].
+  Ltac nz g := unfold round_shape_kw; cbn [eqb RO zeroT ofZ fst snd]; repeat (rewrite Reqb_false by (cbn; lra)); cbn [orb].
   Ltac derived_shape g :=
     match goal with |- context[round_shape RO (?a, ?b)] =>
       replace a with (IZR (gh g)) by fld; replace b with (IZR (gw g)) by fld end;
